@@ -29,6 +29,20 @@ L1_CLAUSES = {"SameElementForSameIndex", "StableAddress", "ConstructedOnceBefore
               "Cooling", "CoolingNoStall", "NoUseAfterFree", "NoLeak", "NoDoubleFree", "NoDataRace", "NoCrash", "Protocol"}
 WRAP_T0 = 65534 * 64 - cv.CLOCK_BASE + 40   # virtual start time two units before the 16-bit stamp wraps
 
+
+
+def start_at(unit, offset):
+    """driver parameter t0 that makes the code's clock (CLOCK_MONOTONIC_RAW) read unit*64 + offset seconds at the start"""
+    return unit * 64 + offset - cv.CLOCK_BASE
+
+
+# clock histories across and well past the 16-bit wrap of the stamp (one unit before it, just past it, at further
+# multiples): growth -> snapshot -> short wait (< 64 s) -> further growth / gc() -> snapshot use.  Whatever the
+# stamp arithmetic does with the high bits, nothing may be given back here: everything happens within 20 s.
+WRAP_PROG = "e0.w5.e1.w5.e2.w5.e3_w2.s.w10.u0.s.w10.u0_w7.g.w5.g.w5.g"
+PASTWRAP = [(1, 0, start_at(65535, 55), WRAP_PROG), (1, 0, start_at(65536 + 3, 10), WRAP_PROG),
+            (2, 0, start_at(2 * 65536 + 10, 30), "e1.w5.e3.w5.e5_w2.s.w10.u0.s.w3.u2_w7.g.w5.g"), (1, 1, start_at(3 * 65536, 0), WRAP_PROG)]
+
 # (bs, st, t0, prog)
 FIXED = [
     (1, 0, 0, "e0_e0"),
@@ -248,7 +262,7 @@ OTHER = "witness=other (no retire() was delayed between clock read and CAS)"
 def mc_jobs(tier, old_retire=False):
     """old_retire: the code still has the retire() that reads the clock once (commits before b43a36c): the h4 family
     is then checked in that variant (Fix = FALSE): CoolingNoStall must hold, Cooling is expected to fail (H4)"""
-    jobs = [("grow2_sc", "CVec_grow2q_sc.cfg"), ("wm", "CVec_wmq.cfg")]
+    jobs = [("grow2_sc", "CVec_grow2q_sc.cfg"), ("wm", "CVec_wmq.cfg"), ("wrap_sc", "CVec_wrap_sc.cfg")]
     if old_retire:
         jobs += [("h4_nostall", "CVec_h4ns_unfixed.cfg"), ("h4_cooling", "CVec_h4_unfixed.cfg")]
     else:
@@ -256,7 +270,7 @@ def mc_jobs(tier, old_retire=False):
     if tier == "thorough":
         jobs += [("grow2_full_sc", "CVec_grow2_sc.cfg"), ("grow3_sc", "CVec_grow3_sc.cfg"), ("wm_full", "CVec_wm.cfg"), ("noreduction_xcheck", "CVec_full.cfg")]
         if not old_retire:
-            jobs += [("clock_sc", "CVec_clock_sc.cfg"), ("h4_tpu2", "CVec_h4_tpu2.cfg"), ("h4_old_retire_nostall", "CVec_h4ns_unfixed.cfg")]
+            jobs += [("clock_sc", "CVec_clock_sc.cfg"), ("h4_tpu2", "CVec_h4_tpu2.cfg"), ("h4_pastwrap", "CVec_h4w.cfg"), ("h4_old_retire_nostall", "CVec_h4ns_unfixed.cfg")]
     return [(n, os.path.join(SPEC, "mc", c)) for n, c in jobs if os.path.exists(os.path.join(SPEC, "mc", c))]
 
 
@@ -291,6 +305,10 @@ def run(pid, tier, seed, replay=None):
     else:
         s0 = seed * 1000 + 1
         execs, status = record(FIXED, (s0, s0 + (3 if quick else 30)), ["--strategy", "mix"], os.path.join(tr, pid + "_fixed"))
+        e5, s5 = record(PASTWRAP, (s0, s0 + (2 if quick else 20)), ["--strategy", "mix"], os.path.join(tr, pid + "_wrap"))
+        execs += e5
+        for k, v in s5.items():
+            status[k] = status.get(k, 0) + v
         rprogs = [gen_program(rng) for _ in range(10 if quick else 150)]
         e2, s2 = record(rprogs, (s0, s0 + (2 if quick else 4)), ["--strategy", "mix"], os.path.join(tr, pid + "_rand"), jobs=4)
         e3, s3 = record(PB[:1] if quick else PB, (1, 2), ["--strategy", "pb", "--pb-bound", "1" if quick else "2", "--max-execs", "80" if quick else "600"], os.path.join(tr, pid + "_pb"))
